@@ -130,6 +130,11 @@ def run(ctx):
         tr, _ = _run(rnd.choice(["mcmc", "mcmc", "vi"]), rnd.randint(0, 40), rnd.randint(1, 12), rnd.randint(1, 15),
                      seed=rnd.randrange(1000), nchains=rnd.randint(1, 4), idx=0)
         traces.append(tr)
+    for big in (300, 700) if ctx.quick else (257, 300, 700, 1500):
+        tr, _ = _run("vi", 0, 1, big)
+        traces.append(tr)
+    tr, _ = _run("mcmc", 0, 1, 3)          # no burn-in at all
+    traces.append(tr)
     for _ in range(3 if ctx.quick else 20):
         traces.append(_streams(rnd, 5 if ctx.quick else 8, 256 if ctx.quick else 1024))
     _decide(ctx, traces)
